@@ -201,3 +201,53 @@ pub fn sgr_color_case<const DR: usize, const DG: usize, const DB: usize>() {
     }
     assert!(iter.next() == Some(&b"48"[..]), "C06: colour selection swallowed the parameters that follow it");
 }
+
+/// expected record of a fixed parameter string, written by hand from ECMA-48 / xterm
+fn expect_sgr(data: &[u8], want: FaceModify) {
+    let got = sgr_face(data);
+    assert!(got == want, "C06: library reads a fixed SGR string differently from SGR semantics");
+}
+
+fn rgb(r: u8, g: u8, b: u8) -> Option<RGBA> {
+    Some(RGBA::new(r, g, b, 255))
+}
+
+/// FIXED parameter strings (no symbolic input: `sgr_face` splits on every byte and does not
+/// fit the solver with symbolic separators). These are the forms the encoder emits plus the
+/// reset / override corner cases; executed under CBMC with all checks on.
+/// @bounds 22 fixed SGR parameter strings (concrete), listed in the source
+/// @encodes decoder::sgr_face, decoder::sgr_color, decoder::number_decode
+#[cfg_attr(kani, kani::proof)]
+#[cfg_attr(kani, kani::unwind(24))]
+pub fn c06_sgr_fixed_strings() {
+    let none = FaceModify::default();
+    let reset = FaceModify { reset: true, ..none };
+    expect_sgr(b"", reset);
+    expect_sgr(b"0", reset);
+    expect_sgr(b"1", FaceModify { bold: Some(true), ..none });
+    // a reset in the middle discards what came before it, later parameters still apply
+    expect_sgr(b"1;0", reset);
+    expect_sgr(b"1;", reset);
+    expect_sgr(b"1;0;3", FaceModify { reset: true, italic: Some(true), ..none });
+    expect_sgr(b"0;1", FaceModify { reset: true, bold: Some(true), ..none });
+    // later parameters override earlier ones
+    expect_sgr(b"3;23", FaceModify { italic: Some(false), ..none });
+    expect_sgr(b"4;24", FaceModify { underline: Some(UnderlineStyle::None), ..none });
+    expect_sgr(b"4:3", FaceModify { underline: Some(UnderlineStyle::Curly), ..none });
+    expect_sgr(b"4", FaceModify { underline: Some(UnderlineStyle::Straight), ..none });
+    expect_sgr(b"5;9", FaceModify { blink: Some(true), strike: Some(true), ..none });
+    expect_sgr(b"25;29", FaceModify { blink: Some(false), strike: Some(false), ..none });
+    // the encoder's true colour forms, alone and followed by further parameters
+    expect_sgr(b"38;2;1;2;3", FaceModify { fg: rgb(1, 2, 3), ..none });
+    expect_sgr(b"48;2;4;5;6", FaceModify { bg: rgb(4, 5, 6), ..none });
+    expect_sgr(b"38;2;1;2;3;48;2;4;5;6", FaceModify { fg: rgb(1, 2, 3), bg: rgb(4, 5, 6), ..none });
+    expect_sgr(b"0;38;2;255;0;9;1;9", FaceModify { reset: true, fg: rgb(255, 0, 9), bold: Some(true), strike: Some(true), ..none });
+    expect_sgr(b"58;2;7;8;9;3", FaceModify { underline_color: rgb(7, 8, 9), italic: Some(true), ..none });
+    // colon forms with and without the colour space slot
+    expect_sgr(b"38:2:1:2:3", FaceModify { fg: rgb(1, 2, 3), ..none });
+    expect_sgr(b"38:2::1:2:3", FaceModify { fg: rgb(1, 2, 3), ..none });
+    // cube and grey ramp of the 256 colour palette (xterm)
+    expect_sgr(b"38;5;16", FaceModify { fg: rgb(0, 0, 0), ..none });
+    expect_sgr(b"48;5;231", FaceModify { bg: rgb(255, 255, 255), ..none });
+    witness!(true, "end reached");
+}
